@@ -86,12 +86,12 @@ def run(tier, v):
                          "post_check_exit": x.post_check_exit, "lock": x.lock, "max_id_in_tree": max_id(x.src)},
                         replay_files=_replay_files(sc, x), replay_cmd=_replay_cmd(sc, x))
 
-    names = ["S1", "S2", "S3", "S4", "S8", "S9", "S9b", "S10"]
+    names = ["S1", "S2", "S3", "S4", "S8", "S9", "S9b", "S10", "S11"]
     bound = 2 if tier == "thorough" else 1
     for check in (False, True):
         for n in names:
             sc = scenarios.ALL[n](check=check)
-            base, nx, capped = ex.explore(sc, {"sig"}, bound if n != "S10" else 1, oracle, opt=opt, second_menu={"fail"},
+            base, nx, capped = ex.explore(sc, {"sig"}, bound if n not in ("S10", "S11") else 1, oracle, opt=opt, second_menu={"fail"},
                                           op_filter=lambda o, d, x: o.k >= first_opendir(x))
             v.subspace("%s/%s: SIGINT,SIGTERM before and after every operation from opendir(source_dir) on%s" % (
                 sc.name, "check" if check else "edit", "; then one I/O fault at every later operation" if bound == 2 else ""),
